@@ -993,13 +993,13 @@ pub fn c25(s: &mut Session) -> Meta {
   let t = s.tier();
   s.run_part(Part::new(
     "roundtrip",
-    t.pick(20_000, 1_000_000),
+    t.pick(300_000, 1_000_000),
     roundtrip_strategy,
     roundtrip_check,
   ));
   s.run_part(Part::new(
     "decipher",
-    t.pick(60_000, 4_000_000),
+    t.pick(1_200_000, 4_000_000),
     decipher_strategy,
     decipher_check,
   ));
